@@ -1956,7 +1956,9 @@ dnsname_to_labels(u8 *const buf, size_t buf_len, off_t j,
 		j += 4;							\
 	} while (0)
 
-	if (name_len > 255) return -2;
+	/* 255 octets on the wire: at most 253 characters plus an optional
+	 * trailing dot */
+	if (name_len > 254 || (name_len == 254 && name[253] != '.')) return -2;
 
 	for (;;) {
 		const char *const start = name;
@@ -1979,6 +1981,9 @@ dnsname_to_labels(u8 *const buf, size_t buf_len, off_t j,
 			/* append length of the label. */
 			const size_t label_len = name - start;
 			if (label_len > 63) return -1;
+			/* an empty label would end the name early and leave the
+			 * rest behind it as garbage */
+			if (label_len == 0) return -1;
 			if ((size_t)(j+label_len+1) > buf_len) return -2;
 			if (table) dnslabel_table_add(table, start, j);
 			buf[j++] = (ev_uint8_t)label_len;
